@@ -259,9 +259,18 @@ func parseOne(text string) (msg string, rejected bool) {
 	var tree *parse.Tree
 	var err error
 	var pan any
+	// (the documented two-step form New(...).Parse(text) is the same parse by another door)
+	twoStep := len(text)%3 == 1
 	done := fw.WithTimeout(20, func() {
 		defer func() { pan = recover() }()
-		tree, err = parse.Parse(name, text, nil)
+		if twoStep {
+			tree, err = parse.New(name, nil).Parse(text)
+			if err != nil {
+				tree = nil
+			}
+		} else {
+			tree, err = parse.Parse(name, text, nil)
+		}
 	})
 	if !done {
 		return fmt.Sprintf("parse.Parse did not return within the watchdog on %q", text), false
